@@ -4,7 +4,7 @@
    mapping guarantees for the re-keyed world. *)
 From stdpp Require Import gmap.
 From Coq Require Import ZArith NArith.
-From NSG Require Import Model.World Model.Load Model.Remap Proofs.RemapFacts Proofs.Equivariance.
+From NSG Require Import Model.World Model.Load Model.Remap Proofs.RemapFacts Proofs.Equivariance Proofs.InitEquiv.
 
 (* one-to-one on the hosts and on the networks of the world *)
 Theorem C13_one_to_one_ips : forall w m, valid_mapping w m = true ->
@@ -108,6 +108,40 @@ Example C13_equivariant_nonvacuous :
   bool_decide (3232235778%N ∈ get (w_fw (fst (play w v acts))) 3232236034%N) = false.
 Proof. vm_compute. repeat split; reflexivity. Qed.
 
+(* "start positions follow the same re-labelling": for a valid re-labelling, the initial view built on the re-keyed world
+   from the translated start position (and the translated random picks) is the translated initial view of the original
+   world, on the objects of the scenario (both sides restricted to the scenario's networks: the artificial neighbouring
+   networks that are not scenario networks are outside the re-labelling).  With C13_equivariant_play: the whole episode
+   played on the re-labelled world is the translation of the episode played on the original one. *)
+Theorem C13_start_positions : forall (w : world) (m : mapping), valid_mapping w m = true ->
+  forall (sp : start_pos) (o : list ip), sp_in_scenario w sp o ->
+  view_restrict (rekey_world m w) (init_view (rekey_world m w) (map_sp m sp) (map (mip m) o)) =
+  map_view m (view_restrict w (init_view w sp o)).
+Proof. exact init_view_equivariant. Qed.
+
+(* non-vacuity: the two-network world, its valid re-labelling, a start position with a listed host, 'all_local' and a
+   listed network; the premises hold and the controlled hosts of the re-labelled initial view are the re-labelled ones *)
+Example C13_start_positions_nonvacuous :
+  let w := {| w_ip2host := {[3232235778%N := 7%N; 3232236034%N := 8%N]};
+              w_nets := {[(3232235776%N, 24%N) := {[3232235778%N]}; (3232236032%N, 24%N) := {[3232236034%N]}]};
+              w_services := ∅; w_data := ∅; w_fw := ∅; w_blocks := ∅; w_data0 := ∅; w_fw0 := ∅ |} in
+  let m := {| m_ip := {[3232235778%N := 167772419%N; 3232236034%N := 167772677%N]};
+              m_net := {[(3232235776%N, 24%N) := (167772416%N, 24%N); (3232236032%N, 24%N) := (167772672%N, 24%N)]} |} in
+  let sp := {| sp_nets := [(3232236032%N, 24%N)]; sp_hosts := [3232236034%N]; sp_ctrl := [SHost 3232235778%N]; sp_svcs := []; sp_data := [] |} in
+  valid_mapping w m = true /\ sp_in_scenario w sp [] /\
+  bool_decide (167772419%N ∈ v_ctrl (init_view (rekey_world m w) (map_sp m sp) [])) = true /\
+  bool_decide ((167772672%N, 24%N) ∈ v_nets (view_restrict (rekey_world m w) (init_view (rekey_world m w) (map_sp m sp) []))) = true.
+Proof.
+  split; [vm_compute; reflexivity|]. split; [|split; vm_compute; reflexivity].
+  constructor; simpl.
+  - intros h [<-|[]]. vm_compute. set_solver.
+  - intros h [[= <-]|[]]. vm_compute. set_solver.
+  - intros h [].
+  - intros n [<-|[]]. vm_compute. set_solver.
+  - split; [constructor | intros k []].
+  - split; [constructor | intros k []].
+Qed.
+
 Print Assumptions C13_one_to_one_ips.
 Print Assumptions C13_one_to_one_nets.
 Print Assumptions C13_shape.
@@ -120,3 +154,4 @@ Print Assumptions C13_connections_both_ways.
 Print Assumptions C13_equivariant_step.
 Print Assumptions C13_equivariant_play.
 Print Assumptions C13_equivariant_ready.
+Print Assumptions C13_start_positions.
